@@ -4,6 +4,7 @@ import (
 	"encoding/json"
 	"flag"
 	"fmt"
+	"math/rand"
 	"os"
 	"runtime"
 	"sync"
@@ -73,6 +74,33 @@ func init() {
 			fmt.Fprintln(os.Stderr, err)
 			return 2
 		}
+		return 0
+	}
+}
+
+func init() {
+	// vh plugin-peer -n N -seed S -out results.json : peer-supplied CBOR values into plugin-backed modules
+	commands["plugin-peer"] = func(args []string) int {
+		fs := flag.NewFlagSet("plugin-peer", flag.ExitOnError)
+		n := fs.Int("n", 2000, "values")
+		seed := fs.Int64("seed", 1, "seed")
+		out := fs.String("out", "", "results JSON")
+		_ = fs.Parse(args)
+		rng := rand.New(rand.NewSource(*seed))
+		var res []pluginx.PeerResult
+		for i := 0; i < *n; i++ {
+			node := pluginx.RandNode(rng.Intn, 3)
+			for _, role := range []string{"device", "owner"} {
+				res = append(res, pluginx.Peer(role, node))
+			}
+		}
+		f, err := os.Create(*out)
+		if err != nil {
+			fmt.Fprintln(os.Stderr, err)
+			return 2
+		}
+		defer f.Close()
+		_ = json.NewEncoder(f).Encode(res)
 		return 0
 	}
 }
